@@ -7,6 +7,8 @@
 //	    fault) so that every failed render is followed by renders that share the pools.
 //	c10 fixtures <repo> <cap> <events-out.ndjson>
 //	    the repository's own error/cancel fixtures under every writer fault offset and mode.
+//	c10 bytespool <cases.ndjson> <seed> <events-out.ndjson> [poison]
+//	    behaviours of spec/RenderIOBytes.tla on templ.ToGoHTML / the buffered templ.Handler (bytespool.go).
 package main
 
 import (
@@ -371,6 +373,8 @@ func main() {
 		cases(os.Args[2:])
 	case "fixtures":
 		fixtures(os.Args[2:])
+	case "bytespool":
+		bytespool(os.Args[2:])
 	default:
 		vhlib.Fatal("unknown mode %s", os.Args[1])
 	}
